@@ -17,7 +17,8 @@ from common import sexp, parse_sexp
 import c03_cf, c03_rt, passes, progen, pyast
 
 MODEL_FILES = ['MaltModel/Conv/BlockVars.lean', 'MaltModel/Conv/ControlFlow.lean', 'MaltModel/Conv/Contract.lean',
-               'MaltModel/Proofs/C03Basic.lean', 'MaltModel/Proofs/C03Model.lean', 'MaltModel/Drv/C03.lean']
+               'MaltModel/Proofs/C03Basic.lean', 'MaltModel/Proofs/C03BlockVars.lean', 'MaltModel/Proofs/C03Namer.lean',
+               'MaltModel/Proofs/C03Model.lean', 'MaltModel/Proofs/C03Store.lean', 'MaltModel/Drv/C03.lean']
 
 CORPUS = os.path.join(common.VERIF, 'corpus', 'C03')
 
@@ -75,7 +76,7 @@ def composite_programs(rng, n):
     exist before the statement: the class `missing_composite_written_back` and its complement."""
     out = []
     for k in range(n):
-        lines = ['def f(a, b, c, l):', '    o = Obj(a)', '    x = a']
+        lines = ['def f(a, b, c, l):', '    o = Obj(a)', '    o.z = Obj(b)', '    x = a']
         lines.append('    dd = %s' % rng.choice(['{}', "{'k': 0}", '{0: 5}', "{'k': 1, 'j': 2}"]))
         if rng.random() < 0.15:
             lines.append('    if a > 5:')
@@ -85,7 +86,8 @@ def composite_programs(rng, n):
             base = 'o'
         nst = rng.randrange(1, 4)
         for j in range(nst):
-            key = rng.choice(["dd['k']", "dd['j']", 'dd[0]', 'dd[x]', '%s.v' % base, '%s.w' % base, 'l[0]'])
+            key = rng.choice(["dd['k']", "dd['j']", 'dd[0]', 'dd[x]', '%s.v' % base, '%s.w' % base, 'l[0]', 'dd["it\'s"]',
+                              "dd['a.b']", 'dd[1.5]', 'o.z.v', 'o.z.u', 'dd[o.v]', 'dd[True]'])
             val = rng.choice(['x', 'b', 'tr(%d, x)' % (10 * k + j), 'x + 1'])
             form = rng.randrange(4)
             if form == 0:
@@ -172,9 +174,47 @@ def final_tree_request(trace):
     return 'c03.check ' + sexp(c03_cf.canon(c03_cf._norm(sx)))
 
 
+class FunctionalIf(object):
+    """Focused search only: an `if_stmt` implementing the documented meaning of `nouts` -- after the selected branch ran,
+    only the first `nouts` state entries keep their new value, the rest are put back to what they were before the
+    statement ("vars which are not outputs will not be passed through staged control flow")."""
+
+    def __init__(self, ags, undefined_cls):
+        self.ags, self.saved, self.Undefined = ags, [], undefined_cls
+
+    def __enter__(self):
+        for ag in self.ags:
+            orig = ag.if_stmt
+            self.saved.append((ag, orig))
+
+            def if_stmt(cond, body, orelse, get_state, set_state, symbol_names, nouts, _orig=orig):
+                try:
+                    init = get_state()
+                except Exception:  # noqa
+                    return _orig(cond, body, orelse, get_state, set_state, symbol_names, nouts)
+                r = _orig(cond, body, orelse, get_state, set_state, symbol_names, nouts)
+                try:
+                    final = get_state()
+                    # entries that were undefined / missing before the statement are left alone (writing the placeholder
+                    # back is the known finding missing_composite_written_back, not what is searched for here)
+                    if isinstance(nouts, int) and len(final) == len(init) and \
+                            not any(isinstance(v, self.Undefined) for v in tuple(init) + tuple(final)):
+                        set_state(tuple(final[:nouts]) + tuple(init[nouts:]))
+                except Exception:  # noqa
+                    pass
+                return r
+            ag.if_stmt = if_stmt
+        return self
+
+    def __exit__(self, *a):
+        for ag, orig in reversed(self.saved):
+            ag.if_stmt = orig
+
+
 def process_chunk(args):
-    """args = (list of (program json, expect json), use_driver, extra_decisions).  Returns a list of per-program results."""
-    items, use_driver, extra_dec = args
+    """args = (list of (program json, expect json), use_driver, extra_decisions[, focus]).  Returns a list of per-program results."""
+    items, use_driver, extra_dec = args[:3]
+    focus = len(args) > 3 and args[3]
     sys.path.insert(0, common.REPO)
     from malt.operators import variables
     from malt.impl import api
@@ -229,6 +269,22 @@ def process_chunk(args):
                         res['runs'] += 1
                         if got != plain:
                             res['diverged'] += 1
+                        if focus:
+                            # model-independent semantic probes, used only to find a failing input after an obligation broke
+                            case = {'recursive': rec, 'input': list(inp), 'decisions': list(dec)}
+                            try:
+                                orig = progen.run_program(mod, mod.f, inp, dec)
+                                if orig != plain and len(res['rt_failures']) < 6:
+                                    res['rt_failures'].append(dict(case, what='the converted function behaves differently from the original',
+                                                                   cls=None, detail={'original': repr(orig)[:300], 'converted': repr(plain)[:300]}))
+                                with FunctionalIf([a for a in (ag, gag) if a is not None], variables.Undefined):
+                                    fun = progen.run_program(mod, tr.converted, inp, dec)
+                                if fun != plain and len(res['rt_failures']) < 6:
+                                    res['rt_failures'].append(dict(case, what='outputs are not the first nouts state entries: an if_stmt that passes only '
+                                                                   'the first nouts entries on changes the result', cls=None,
+                                                                   detail={'functional': repr(fun)[:300], 'native': repr(plain)[:300]}))
+                            except RecursionError:
+                                pass
                         for k, v in ins.counts.items():
                             res['counts'][k] = res['counts'].get(k, 0) + v
                         seen |= ins.seen_loops
@@ -360,10 +416,10 @@ def new_stats():
             'cf_cases': 0, 'checker_cases': 0, 'checker_calls': 0, 'directive_loops': 0, 'seen_directive_loops': 0}
 
 
-def run_pool(items, use_driver, extra_dec=(), chunk=6):
+def run_pool(items, use_driver, extra_dec=(), chunk=6, focus=False):
     tasks = []
     for i in range(0, len(items), chunk):
-        tasks.append(([(p.to_json(), expect_to_json(e)) for p, e in items[i:i + chunk]], use_driver, list(extra_dec)))
+        tasks.append(([(p.to_json(), expect_to_json(e)) for p, e in items[i:i + chunk]], use_driver, list(extra_dec), focus))
     nproc = min(16, os.cpu_count() or 4, max(1, len(tasks)))
     ctx = multiprocessing.get_context('fork')
     out = []
@@ -438,15 +494,15 @@ def check(run, only=None):
         run.oblige('checker:contractOk-on-real-output', 'checker', False, 'driver unavailable')
 
     # ---------------- focused search when the tie broke: more decision vectors on the disagreeing programs
-    if cf_dis and only is None:
+    if (cf_dis or ck_bad) and only is None:
         seen, focus = set(), []
-        for d in cf_dis:
+        for d in cf_dis + ck_bad:
             p = progen.Program.from_json(d['program'])
-            if p.key not in seen and len(focus) < 12:
+            if p.key not in seen and len(focus) < 40:
                 seen.add(p.key)
                 focus.append((p, expect_of_source(p.source)))
         extra = progen.decision_vectors(random.Random(run.seed + 17), 24)[4:]
-        fres = run_pool(focus, False, extra_dec=extra, chunk=1)
+        fres = run_pool(focus, False, extra_dec=extra, chunk=1, focus=True)
         fstats = new_stats()
         absorb(run, fres, {p.key: p for p, _ in focus}, fstats)
         run.cov['focused_search'] = {'programs': len(focus), 'runs': fstats['runs'], 'runtime_checks': fstats['rt']}
